@@ -12,7 +12,7 @@ for _f in sys.meta_path:
     _m = getattr(_f, "known_source_files", None)
     if isinstance(_m, dict):
         for _k, _v in list(_m.items()):
-            if _v.startswith("/repo/src/"):
+            if _v.startswith("/repo/src/") and os.path.exists(_repo + _v[len("/repo"):]):  # (_version.py is build-generated)
                 _m[_k] = _repo + _v[len("/repo"):]
 
 import numpy as np, awkward as ak, uproot
@@ -81,9 +81,12 @@ for path in files:
             counts = [len(ev) for ev in packed]
             if sum(counts) == 0:
                 continue
-            arr = br.array()
             seen_items.add(item)
             key = f"C16:fixture:{fname}:{item}"
+            try:
+                arr = br.array()
+            except Exception as e:
+                mism.append({"key": key, "what": f"{fname} {item}: TBranch.array() raised {type(e).__name__}: {str(e)[:300]}"}); continue
             if mem not in arr.fields:
                 mism.append({"key": key, "what": f"{fname} {item}: member missing from the array (fields {arr.fields[:6]}...)"}); continue
             a = arr[mem]
